@@ -123,7 +123,10 @@ func (s *rbcSession) concrete(m obj) (from, to uint16, data []byte) {
 	return
 }
 
-func newRBCSession(cfg rbcJobCfg) (*rbcSession, error) {
+func newRBCSession(cfg rbcJobCfg) (*rbcSession, error) { return newRBCSessionWith(cfg, nil) }
+
+// logger: optional, the Logger of the Scheme of an abstract party (default: silent)
+func newRBCSessionWith(cfg rbcJobCfg, logger func(a int) tss.Logger) (*rbcSession, error) {
 	s := &rbcSession{cfg: cfg, real: map[int]uint16{}, abs: map[uint16]int{}, schemes: map[int]*threshold.Scheme{},
 		backends: map[int]*scripted.Backend{}, digests: map[string]obj{}, results: make(chan error, 16)}
 	all := []int{}
@@ -193,7 +196,11 @@ func newRBCSession(cfg rbcJobCfg) (*rbcSession, error) {
 				}
 			}
 		}
-		party := threshold.LoudScheme(id, scripted.Logger{}, func(uint16) tss.KeyGenerator { return be }, func(uint16) tss.Signer { return be },
+		var lg tss.Logger = scripted.Logger{}
+		if logger != nil {
+			lg = logger(a)
+		}
+		party := threshold.LoudScheme(id, lg, func(uint16) tss.KeyGenerator { return be }, func(uint16) tss.Signer { return be },
 			cfg.N-1, send, func() map[tss.UniversalID]tss.PartyID { return membership })
 		sch := party.(*threshold.Scheme)
 		sch.SyncFactory = func(members []uint16, _ func([]byte), _ func([]byte, uint16)) tss.Synchronizer {
